@@ -83,3 +83,54 @@ Proof.
   exact (C01_roundtrip f wo ro e s v a (wire a) pv Hw He (elab_typedn f wo e s v a He Hwe Hws Hwv Hfl) Hp f' Hf r).
 Qed.
 Print Assumptions C01_roundtrip_conforming.
+
+(** ---- the documented normalisation, declaratively ---- *)
+(** [normalises n o e s v out] (model/Conform.v) is the statement's sentence clause by clause -- omitted fields replaced by
+    their defaults, union hints stripped, sequences returned as lists, numbers written under float/double returned as
+    floats, 'float' values rounded to IEEE single precision -- written independently of the writer's branch search: under
+    a union it only says that [out] is the normalisation of [v] under SOME admissible branch ((name, value) restricts the
+    candidates to branches of that name, a "-type" entry to the record of that name, otherwise a branch v conforms to).
+    Whatever the writer elaborates and the reader (no named-type reporting) builds from it is such a normalisation. *)
+Theorem C01_normalisation : forall f o e s v a out,
+  elab f o e s v = WOk a -> wf_env e = true -> wf_schema s = true -> wf_py v = true ->
+  py_of ropts0 e s a = Some out -> normalises f o e s v out.
+Proof. exact elab_normalises. Qed.
+Print Assumptions C01_normalisation.
+
+(** the reader builds a value from every well-typed wire value ([named_env]: named_schemas holds named types) *)
+Theorem C01_reader_total : forall ro e, named_env e = true -> forall n s a, typedn n e s a -> exists out, py_of ro e s a = Some out.
+Proof. exact py_of_total. Qed.
+Print Assumptions C01_reader_total.
+
+(** end to end: when schemaless_writer accepts [v], schemaless_reader on the written bytes followed by anything returns
+    a value [out] that is the documented normalisation of [v], and stops exactly after the written bytes.
+    [floats_ok a] is the float-range side condition of C01_elab_typed (not proved, checked in-model on every case). *)
+Theorem C01_roundtrip_normalised : forall f wo e s v a,
+  elab f wo e s v = WOk a -> wf_env e = true -> named_env e = true -> wf_schema s = true -> wf_py v = true ->
+  floats_ok a = true ->
+  exists out, normalises f wo e s v out /\ write f wo e s v = WOk (wire a) /\
+    forall f', (f <= f')%nat -> forall r, read f' ropts0 e s (wire a ++ r) = Ok (out, r).
+Proof. exact roundtrip_normalised. Qed.
+Print Assumptions C01_roundtrip_normalised.
+
+(** non-vacuity: defaults filled in, hint stripped, tuple -> list, int -> float, float rounded to single, bytearray -> bytes *)
+Definition nrec : schema :=
+  SRecord (s2b "N") []
+    [mkField (s2b "a") SFloat None []; mkField (s2b "b") (SArray (SUnion [SNull; SBytes; SDouble])) None [];
+     mkField (s2b "c") SInt (Some (PInt 7)) []].
+Definition nopts : wopts := {| strict := false; strict_allow_default := false; disable_tuple := false |}.
+Definition nv : pyval :=
+  PDict [(PStr (s2b "b"), PTuple [PNone; PByteArray [1; 2]; PTuple [PStr (s2b "double"); PInt 2]]);
+         (PStr (s2b "a"), PInt 16777217)].
+Definition nout : pyval :=
+  PDict [(PStr (s2b "a"), PFloat 4715268809856909312);                                   (* 16777216.0: rounded to single *)
+         (PStr (s2b "b"), PList [PNone; PBytes [1; 2]; PFloat 4611686018427387904]);      (* hint stripped, 2 -> 2.0 *)
+         (PStr (s2b "c"), PInt 7)].                                                       (* default filled in *)
+Example C01_normalisation_example :
+  normalises 9 nopts [] nrec nv nout /\
+  exists a, elab 9 nopts [] nrec nv = WOk a /\ py_of ropts0 [] nrec a = Some nout.
+Proof.
+  split.
+  - eapply (C01_normalisation 9 nopts [] nrec nv); [vm_compute; reflexivity|reflexivity|vm_compute; reflexivity|vm_compute; reflexivity|vm_compute; reflexivity].
+  - eexists. split; vm_compute; reflexivity.
+Qed.
